@@ -185,8 +185,8 @@ theorem sub_required_superset_partial {O : Oracles} {w : World} {src : ClassSrc}
     apply List.mem_append_left
     simp only [List.mem_filter, List.mem_map]
     refine ⟨⟨(n, true), hmem, rfl⟩, ?_⟩
-    have hc0 : n ∉ (constantsOf (allFieldsOf w src)).map (·.1) := hc
-    have hc' : ((constantsOf (allFieldsOf w src)).map (·.1)).contains n = false := by
+    have hc0 : n ∉ (constantsOf (resolvedFields w src)).map (·.1) := hc
+    have hc' : ((constantsOf (resolvedFields w src)).map (·.1)).contains n = false := by
       simpa using hc0
     have : (basesRequired w src).contains n = true := by simpa using hbr
     rw [this, hc']; simp
